@@ -246,8 +246,24 @@ def run_case(i, rng, rec, tier, state):
     except Exception as e:
         rec.violation(which + ".is_inside", f"{which}.is_inside/raises-{type(e).__name__}", dict(info, exc=repr(e)[:300]))
         return
-    # single-point calls must reproduce the batch answers, in order; (3,) and list forms accepted
-    idx = rng.choice(len(pts), size=min(6, len(pts)), replace=False)
+    # single-point calls must reproduce the batch answers, in order; (3,) and list forms accepted.
+    # Only points outside the boundary band are compared (on the boundary itself a batch and a
+    # single call may round differently, and the statement excludes those points).
+    if which == "ConvexPolyhedron":
+        _, band, bsize = oracle_convex(V, pts)
+    elif which == "Polyhedron":
+        _, band, bsize = oracle_mesh(V, [[int(x) for x in f] for f in faces], pts)
+    elif which == "Sphere":
+        band, bsize = np.abs(np.linalg.norm(pts - cen, axis=1) - r), r
+    elif which == "Ellipsoid":
+        axv = np.array(ax)
+        band, bsize = np.abs(np.sqrt((((pts - cen) / axv) ** 2).sum(1)) - 1) * axv.min(), axv.max()
+    else:
+        _, band, bsize = oracle_sphero(V, r, pts)
+    clear = np.nonzero(band > MARGIN * bsize)[0]
+    if len(clear) == 0:
+        return
+    idx = rng.choice(clear, size=min(6, len(clear)), replace=False)
     for t, j in enumerate(idx):
         form = ["(3,)", "(1,3)", "list"][t % 3]
         arg = pts[j].copy() if form == "(3,)" else (pts[j][None, :].copy() if form == "(1,3)" else [float(x) for x in pts[j]])
@@ -263,7 +279,8 @@ def run_case(i, rng, rec, tier, state):
     if len(pts) > 1:
         perm = rng.permutation(len(pts))
         r2 = np.asarray(s.is_inside(pts[perm].copy()))
-        rec.check("batch-vs-single", r2.shape == res.shape and bool(np.all(r2 == res[perm])), f"{which}.is_inside/batch-order-dependent",
+        cm = band[perm] > MARGIN * bsize
+        rec.check("batch-vs-single", r2.shape == res.shape and bool(np.all(r2[cm] == res[perm][cm])), f"{which}.is_inside/batch-order-dependent",
                   lambda: dict(info, note="permuted batch gives different per-point answers"))
     rec.nontriv(which, info.get("vertices", info.get("axes", info.get("radius"))), pts[:20]) if (not convex_shape or len(pts) >= 7) else None
     if i < 6:
